@@ -38,9 +38,9 @@
  'assumptions': ['sig_ok: the first parameter of a registered custom function accepts *transformctx.Ctx '
                  '(registration is caller code, outside the claim)',
                  'guards of the known findings (KNOWN_FINDINGS.txt, property C03): tpl_small (N3), groups_small '
-                 '(N4), js_no_map_set (N8); the main generators stay inside them, the recorded inputs are replayed '
+                 '(N4), js_no_map_set (N8), xpath_no_top_connective (N12); the main generators stay inside them, the recorded inputs are replayed '
                  'from replays/corpus/C03 on every run (N8 in a process of its own); the classes of the repaired N1, '
-                 'N2, N5, N6, N7, N9, N10 are exercised by the generators (failing-reader runs use any header / data '
+                 'N2, N5, N6, N7, N9, N10, N11 are exercised by the generators (failing-reader runs use any header / data '
                  'row index)',
                  'javascript_result_no_panic_partial stays partial: a Map / Set containing itself overflows the '
                  "stack inside goja's own Export (N8); no Go-side repair exists short of replacing Value.Export, so "
